@@ -65,11 +65,11 @@ proof fn lemma_within_init<V>(n: NfaBuilder<u8, V>, p: int, f: int)
         }
     }
 }
-proof fn lemma_within_step<V>(n: NfaBuilder<u8, V>, p: int, f: int, g: int)
-    requires pctx(n), within(n, path(n, p), path(n, f).len() as int), is_suffix(path(n, f), path(n, p)), 2 <= f < n.states@.len(), !dead_sem(n, f), fail_ok(n, f, g),
-    ensures within(n, path(n, p), path(n, g).len() as int),
+proof fn lemma_within_step<V>(n: NfaBuilder<u8, V>, xp: Seq<u8>, f: int, g: int)
+    requires pctx(n), within(n, xp, path(n, f).len() as int), is_suffix(path(n, f), xp), 2 <= f < n.states@.len(), !dead_sem(n, f), fail_ok(n, f, g),
+    ensures within(n, xp, path(n, g).len() as int),
 {
-    let xp = path(n, p); let xf = path(n, f); let xg = path(n, g);
+    let xf = path(n, f); let xg = path(n, g);
     lemma_within_init(n, f, g);
     let o = xp.len() - xf.len();
     assert forall|st: int, len: int| #[trigger] occ(n, xp, st, len) implies st >= xp.len() - xg.len() by {
@@ -387,5 +387,15 @@ proof fn lemma_outs_inh_finish<V>(n: NfaBuilder<u8, V>, b: NfaBuilder<u8, V>, qs
         let j = choose|j: int| 0 <= j < qs.len() && #[trigger] qs[j] == s;
         assert(inh_at(n, b, qs[j] as int));
         assert(b.states@[s].fail == n.states@[s].fail && b.states@[s].output == n.states@[s].output);
+    }
+}
+proof fn lemma_lm_fail_ok_frame<V>(a: NfaBuilder<u8, V>, b: NfaBuilder<u8, V>)
+    requires passes_frame(a, b), pctx(a), lm_fail_ok(a), forall|s: int| 0 <= s < a.states@.len() ==> (#[trigger] b.states@[s]).fail == a.states@[s].fail,
+    ensures lm_fail_ok(b),
+{
+    reveal(pctx);
+    assert forall|s: int| 2 <= s < b.states@.len() implies ((#[trigger] b.states@[s]).fail == 1 || fail_ok(b, s, b.states@[s].fail as int)) by {
+        assert(a.states@[s].fail == b.states@[s].fail);
+        if a.states@[s].fail != 1 { lemma_fail_ok_same(a, b, s, a.states@[s].fail as int); }
     }
 }
